@@ -77,6 +77,22 @@ func c02Universe(name string) []c02Shape {
 			}
 		}
 		out = append(out, c02Shape{filter: "END"}, c02Shape{filter: "END", alias: "a"})
+	case "rsv":
+		// near-miss spellings of the reserved word END as aliases and jump
+		// targets, blank / blank-padded namespaces (see c02EnumCase)
+		out = []c02Shape{
+			{filter: "f1"},
+			{filter: "f1", jump: [][2]string{{"r1", "end"}}},
+			{filter: "f1", jump: [][2]string{{"r1", "END "}, {"r2", "END"}}},
+			{filter: "f1", jump: [][2]string{{"r2", "End"}}},
+			{filter: "f2", alias: "end"},
+			{filter: "f2", alias: "END "},
+			{filter: "f1", alias: "End", jump: [][2]string{{"r1", "end"}}},
+			{filter: "f2", alias: "a", jump: [][2]string{{"r2", "end"}}},
+			{filter: "f2"},
+			{filter: "END"},
+			{filter: "END", alias: "end"},
+		}
 	default:
 		out = []c02Shape{
 			{filter: "f1"},
@@ -105,6 +121,12 @@ func c02EnumCase(shapes []c02Shape, idx []int) VfC02EnumIn {
 			nd.Ns = "n1"
 		case "b":
 			nd.Ns = "n2"
+		case "end":
+			nd.Ns = " "
+		case "END ":
+			nd.Ns = "n1 "
+		case "End":
+			nd.Ns = " n1"
 		}
 		if len(sh.jump) > 0 {
 			nd.JumpIf = map[string]string{}
@@ -148,12 +170,14 @@ func c02Enum(t *testing.T, out *vfOut, r *vfRand, n int) {
 			out.Emit(vfCase{ID: fmt.Sprintf("enum-%s-%v", tag, idx), Src: "gen", Grp: "enum", In: in, Obs: obs})
 		}
 	}
-	full, mid, small := c02Universe("full"), c02Universe("mid"), c02Universe("small")
+	full, mid, small, rsv := c02Universe("full"), c02Universe("mid"), c02Universe("small"), c02Universe("rsv")
 	if vfTier() == "thorough" {
 		c02EnumAll(full, 1, emit("full", full))
 		c02EnumAll(full, 2, emit("full", full))
 		c02EnumAll(mid, 3, emit("mid", mid))
 		c02EnumAll(small, 4, emit("small", small))
+		c02EnumAll(rsv, 2, emit("rsv", rsv))
+		c02EnumAll(rsv, 3, emit("rsv", rsv))
 		return
 	}
 	// quick tier: a random sample of the same universes
@@ -162,7 +186,9 @@ func c02Enum(t *testing.T, out *vfOut, r *vfRand, n int) {
 		var shapes []c02Shape
 		var tag string
 		var l int
-		switch rr.Intn(4) {
+		switch rr.Intn(5) {
+		case 4:
+			shapes, tag, l = rsv, "rsv", 2+rr.Intn(2)
 		case 0:
 			shapes, tag, l = full, "full", 1+rr.Intn(2)
 		case 1:
